@@ -22,7 +22,7 @@ CHECKS = {
          "Iterators and child snapshots opened from a collection snapshot are closed before that snapshot (the property promises them only while it is open); store-snapshot iterators are kept open past their snapshot.", "3/C02"),
  "C04": ("exploration", "steered close/reopen + canonical-hash prefix identification",
          "Reopened content is identified by canonical hash against the table of all prefix states; caught-up closes must yield exactly all batches, early/mid closes a prefix not older than what the store had exposed. One case in five reopens without waiting for the closed instance's asynchronous unlinks. Close kinds include Store.CloseEx(Abort) with a round parked in mid-flight.",
-         "Caught-up = 3 directed merger+persister iterations after the last batch (decided by steps, not by gauges).", "3/C04"),
+         "Caught-up = 3 directed merger+persister iterations after the last batch (decided by steps, not by gauges). KF-05 (an immediate reopen racing the asynchronous removal of the footer-less file of an aborted first compaction fails once) is a recorded known finding.", "3/C04"),
  "C07": ("exploration", "steered persistence rounds + store-content / post-compaction shape monitors + directory check at quiescence",
          "After every completed round the store snapshot must be a non-decreasing prefix state; after each full compaction no deletion marker, no repeated key, nothing above segment level 0, num_segments <= 1 (recursively in children); at the end exactly one data file.", "Round kind is read from Store.Stats deltas.", "3/C07"),
  "C08": ("exploration", "steered execution + left-fold model with an order-sensitive, nil-revealing merge operator",
